@@ -466,3 +466,563 @@ Proof.
   - apply spec_hflex1; assumption.
   - apply spec_flex1; assumption.
 Qed.
+
+(* ================================================================== *)
+(* 2. The interpreter loop: unfolding equation, fuel irrelevance      *)
+(* ================================================================== *)
+
+Lemma cbind_ext {A B} (x : cres A) (f g : A -> cres B) :
+  (forall a, f a = g a) -> cbind x f = cbind x g.
+Proof. intros H. destruct x; cbn [cbind]; auto. Qed.
+
+Lemma length_drop_le {A} (n : Z) (r : list A) : (length (drop n r) <= length r)%nat.
+Proof. unfold drop. rewrite skipn_length. lia. Qed.
+
+Lemma step_ext : forall rec k1 k2 e d op r s,
+  (forall b s', (length b <= length r)%nat -> k1 b s' = k2 b s') ->
+  step rec k1 e d op r s = step rec k2 e d op r s.
+Proof.
+  intros rec k1 k2 e d op r s H.
+  assert (Hr : forall s', k1 r s' = k2 r s') by (intros; apply H; lia).
+  unfold step. destruct (classify op); try reflexivity.
+  - unfold step_stem. destruct (stem_count s) as [cnt w].
+    apply cbind_ext; intros st. apply cbind_ext; intros s1. apply Hr.
+  - unfold step_move. destruct (move_offset s 2) as [off w]. apply cbind_ext; intros s1. apply Hr.
+  - unfold step_simple. apply cbind_ext; intros s1. apply Hr.
+  - unfold step_call. destruct (stk s); [reflexivity|]. destruct (d =? STACK_LIMIT); [reflexivity|].
+    destruct (local_subrs e) as [subrs|]; [|reflexivity].
+    apply cbind_ext; intros [v s1]. apply cbind_ext; intros idx.
+    destruct (nth_opt subrs idx); [|reflexivity]. apply cbind_ext; intros s2.
+    unfold after_call. destruct (endchar_seen s2 && negb (seac_seen s2)); [reflexivity|apply Hr].
+  - unfold step_escape. destruct r as [|op2 r2]; [reflexivity|].
+    destruct (is_flex_op op2); [|reflexivity]. apply cbind_ext; intros s1.
+    apply H. cbn [length]. lia.
+  - unfold step_vsindex. destruct (e_kind e); [reflexivity|]. destruct (vsidx s); [reflexivity|].
+    destruct (negb (len (stk s) =? 1)); [reflexivity|].
+    apply cbind_ext; intros s1. apply cbind_ext; intros [v s2].
+    destruct (try_as_u16 v); [apply Hr|reflexivity].
+  - unfold step_blend. destruct (e_kind e); [reflexivity|]. destruct (negb (e_variable e)); [reflexivity|].
+    destruct (stk s); [reflexivity|].
+    apply cbind_ext; intros s1. apply cbind_ext; intros [sc s2]. apply cbind_ext; intros s3. apply Hr.
+  - unfold step_mask. destruct (stem_count s) as [cnt w].
+    apply cbind_ext; intros s1. apply cbind_ext; intros st. apply cbind_ext; intros st7.
+    destruct (len r <? st7 / 8); [reflexivity|]. apply H. apply length_drop_le.
+  - unfold step_move. destruct (move_offset s 3) as [off w]. apply cbind_ext; intros s1. apply Hr.
+  - unfold step_move. destruct (move_offset s 2) as [off w]. apply cbind_ext; intros s1. apply Hr.
+  - unfold step_shortint. destruct r as [|b1 [|b2 r2]]; try reflexivity.
+    apply cbind_ext; intros s1. apply H. cbn [length]. lia.
+  - unfold step_call. destruct (stk s); [reflexivity|]. destruct (d =? STACK_LIMIT); [reflexivity|].
+    apply cbind_ext; intros [v s1]. apply cbind_ext; intros idx.
+    destruct (nth_opt (e_gsubrs e) idx); [|reflexivity]. apply cbind_ext; intros s2.
+    unfold after_call. destruct (endchar_seen s2 && negb (seac_seen s2)); [reflexivity|apply Hr].
+  - unfold step_int1. apply cbind_ext; intros s1. apply Hr.
+  - unfold step_int2. destruct r as [|b1 r2]; [reflexivity|]. unfold step_int23.
+    assert (Hr2 : forall s', k1 r2 s' = k2 r2 s') by (intros; apply H; cbn [length]; lia).
+    destruct (e_mode e); [destruct (_ && _); [|reflexivity]|]; apply cbind_ext; intros s1; apply Hr2.
+  - unfold step_int3. destruct r as [|b1 r2]; [reflexivity|]. unfold step_int23.
+    assert (Hr2 : forall s', k1 r2 s' = k2 r2 s') by (intros; apply H; cbn [length]; lia).
+    destruct (e_mode e); [destruct (_ && _); [|reflexivity]|]; apply cbind_ext; intros s1; apply Hr2.
+  - unfold step_fixed. destruct r as [|b1 [|b2 [|b3 [|b4 r2]]]]; try reflexivity.
+    apply cbind_ext; intros s1. apply H. cbn [length]. lia.
+Qed.
+
+Lemma loop_fuel : forall rec e d n m b s,
+  (length b <= n)%nat -> (length b <= m)%nat -> loop rec e d n b s = loop rec e d m b s.
+Proof.
+  induction n as [|n IH]; intros m b s Hn Hm.
+  - destruct b; [|cbn [length] in Hn; lia]. destruct m; reflexivity.
+  - destruct b as [|op r]; [destruct m; reflexivity|].
+    destruct m as [|m]; [cbn [length] in Hm; lia|].
+    cbn [loop]. apply step_ext. intros b' s' Hb. cbn [length] in Hn, Hm. apply IH; lia.
+Qed.
+
+(* the unfolding equation of visit_impl's loop *)
+Lemma run_cons : forall df e d op r s,
+  run (S df) e d (op :: r) s = step (run df e) (run (S df) e d) e d op r s.
+Proof.
+  intros. cbn [run loop length]. apply step_ext. intros b s' Hb.
+  apply loop_fuel; lia.
+Qed.
+
+Lemma run_nil : forall df e d s, run (S df) e d [] s = COk s.
+Proof. reflexivity. Qed.
+
+(* ================================================================== *)
+(* 3. Operand decoding                                                *)
+(* ================================================================== *)
+
+Ltac unfold_consts :=
+  unfold reserved_ops, OP_HORIZONTAL_STEM, OP_VERTICAL_STEM, OP_VERTICAL_MOVE_TO, OP_LINE_TO,
+    OP_HORIZONTAL_LINE_TO, OP_VERTICAL_LINE_TO, OP_CURVE_TO, OP_CALL_LOCAL_SUBROUTINE, OP_RETURN,
+    OP_ENDCHAR, OP_VS_INDEX, OP_BLEND, OP_HORIZONTAL_STEM_HINT_MASK, OP_HINT_MASK, OP_COUNTER_MASK,
+    OP_MOVE_TO, OP_HORIZONTAL_MOVE_TO, OP_VERTICAL_STEM_HINT_MASK, OP_CURVE_LINE, OP_LINE_CURVE,
+    OP_VV_CURVE_TO, OP_HH_CURVE_TO, OP_SHORT_INT, OP_CALL_GLOBAL_SUBROUTINE, OP_VH_CURVE_TO,
+    OP_HV_CURVE_TO, OP_HFLEX, OP_FLEX, OP_HFLEX1, OP_FLEX1, OP_FIXED_16_16,
+    TWO_BYTE_OPERATOR_MARK, INT1_LO, INT1_HI, INT2_LO, INT2_HI, INT3_LO, INT3_HI in *.
+
+Ltac kill_eqb :=
+  repeat match goal with
+         | |- context [?a =? ?b] => destruct (Z.eqb_spec a b); [lia|]
+         end.
+
+Lemma classify_int1 : forall op, 32 <= op <= 246 -> classify op = KInt1.
+Proof.
+  intros op H. unfold classify. unfold_consts. cbn [existsb]. kill_eqb. cbn [orb].
+  destruct (32 <=? op) eqn:E1; [|lia]. destruct (op <=? 246) eqn:E2; [|lia]. reflexivity.
+Qed.
+
+Lemma classify_int2 : forall op, 247 <= op <= 250 -> classify op = KInt2.
+Proof.
+  intros op H. unfold classify. unfold_consts. cbn [existsb]. kill_eqb. cbn [orb].
+  destruct (32 <=? op) eqn:E1; [|lia]. destruct (op <=? 246) eqn:E2; [lia|]. cbn [andb].
+  destruct (247 <=? op) eqn:E3; [|lia]. destruct (op <=? 250) eqn:E4; [|lia]. reflexivity.
+Qed.
+
+Lemma classify_int3 : forall op, 251 <= op <= 254 -> classify op = KInt3.
+Proof.
+  intros op H. unfold classify. unfold_consts. cbn [existsb]. kill_eqb. cbn [orb].
+  destruct (32 <=? op) eqn:E1; [|lia]. destruct (op <=? 246) eqn:E2; [lia|]. cbn [andb].
+  destruct (247 <=? op) eqn:E3; [|lia]. destruct (op <=? 250) eqn:E4; [lia|]. cbn [andb].
+  destruct (251 <=? op) eqn:E5; [|lia]. destruct (op <=? 254) eqn:E6; [|lia]. reflexivity.
+Qed.
+
+(* every valid encoding of v is decoded to v and pushed; the loop continues after it *)
+Lemma run_num : forall bs v, encodes bs v -> forall df e d rest s,
+  run (S df) e d (bs ++ rest) s = s1 <~ push e v s ;; run (S df) e d rest s1.
+Proof.
+  intros bs v Henc df e d rest s. destruct Henc as [n Hn|n Hn|n Hn|n Hn|raw Hr].
+  - cbn [app]. rewrite run_cons. unfold step. rewrite classify_int1 by lia.
+    unfold step_int1, parse_int1_expr. replace (n + 139 - 139) with n by lia. reflexivity.
+  - cbn [app]. rewrite run_cons. unfold step. rewrite classify_int2 by lia.
+    unfold step_int2, step_int23, parse_int2_expr.
+    replace (((n - 108) / 256 + 247 - 247) * 256 + (n - 108) mod 256 + 108) with n by lia.
+    destruct (e_mode e); [|reflexivity].
+    destruct (108 <=? n) eqn:E1; [|lia]. destruct (n <=? 1131) eqn:E2; [|lia]. reflexivity.
+  - cbn [app]. rewrite run_cons. unfold step. rewrite classify_int3 by lia.
+    unfold step_int3, step_int23, parse_int3_expr.
+    replace (- ((- n - 108) / 256 + 251 - 251) * 256 - (- n - 108) mod 256 - 108) with n by lia.
+    destruct (e_mode e); [|reflexivity].
+    destruct (-1131 <=? n) eqn:E1; [|lia]. destruct (n <=? -108) eqn:E2; [|lia]. reflexivity.
+  - cbn [app]. rewrite run_cons. unfold step. change (classify 28) with KShortInt.
+    unfold step_shortint.
+    replace (to_signed 16 (n mod 65536 / 256 * 256 + n mod 256)) with n; [reflexivity|].
+    unfold to_signed. change (2 ^ 16) with 65536. change (2 ^ (16 - 1)) with 32768.
+    destruct (_ <? 32768) eqn:E; lia.
+  - cbn [app be_bytes]. rewrite run_cons. unfold step. change (classify 255) with KFixed.
+    unfold step_fixed.
+    change (Z.of_nat 3) with 3. change (Z.of_nat 2) with 2. change (Z.of_nat 1) with 1.
+    change (Z.of_nat 0) with 0.
+    change (256 ^ 3) with 16777216. change (256 ^ 2) with 65536. change (256 ^ 1) with 256.
+    change (256 ^ 0) with 1.
+    match goal with |- context [to_signed 32 ?w] => replace (to_signed 32 w) with raw end;
+      [reflexivity|].
+    unfold to_signed. change (2 ^ 32) with 4294967296. change (2 ^ (32 - 1)) with 2147483648.
+    destruct (_ <? 2147483648) eqn:E; lia.
+Qed.
+
+Lemma set_stk_id : forall s, set_stk s (stk s) = s.
+Proof. intros [k0 w0 n0 ec0 sk0 vi0 sc0 p0 c0]; reflexivity. Qed.
+
+Lemma run_args : forall bss vs, Forall2 encodes bss vs -> forall df e d rest s,
+  len (stk s) + len vs <= max_stack e ->
+  run (S df) e d (concat bss ++ rest) s = run (S df) e d rest (set_stk s (stk s ++ vs)).
+Proof.
+  induction 1 as [|bs v bss vs Hbv Hrest IH]; intros df e d rest s Hroom.
+  - cbn [concat app]. rewrite app_nil_r, set_stk_id. reflexivity.
+  - cbn [concat]. rewrite <- app_assoc. rewrite (run_num bs v Hbv).
+    rewrite len_cons in Hroom. pose proof (len_nonneg vs).
+    unfold push. destruct (len (stk s) =? max_stack e) eqn:E; [lia|]. cbn [cbind].
+    rewrite IH.
+    + destruct s as [k0 w0 n0 ec0 sk0 vi0 sc0 p0 c0]; cbn [set_stk stk].
+      rewrite <- app_assoc. reflexivity.
+    + destruct s as [k0 w0 n0 ec0 sk0 vi0 sc0 p0 c0]; cbn [set_stk stk] in *.
+      rewrite len_app. change (len [v]) with 1. lia.
+Qed.
+
+(* ================================================================== *)
+(* 4. One operator of a well-formed program                           *)
+(* ================================================================== *)
+
+Definition spec_eff (o : sop) (p : pst) : pst * list cmd :=
+  let '(x, y, o', c) := run_prims (px p) (py p) (negb (first_move p)) (expand o) in
+  (mkP x y (has_move p || is_move o) (negb o'), c).
+
+Lemma spec_res_eff : forall o p, spec_res o p = COk (spec_eff o p).
+Proof.
+  intros. unfold spec_res, spec_eff.
+  destruct (run_prims (px p) (py p) (negb (first_move p)) (expand o)) as [[[x y] o'] c]. reflexivity.
+Qed.
+
+(* conditions under which operator o may be executed on parser state p *)
+Definition op_ok (o : sop) (p : pst) : Prop :=
+  shape_ok o = true /\ len (args_of o) <= TEMP_OPERANDS /\
+  (is_move o = false -> is_hint o = false -> has_move p = true).
+
+Lemma visit_op_spec : forall o off k w n ec sk vi sc p c0,
+  op_ok o p -> drop off k = args_of o ->
+  visit_op (op_byte o) off (mkI k w n ec sk vi sc p c0) =
+  COk (mkI k w n ec sk vi sc (fst (spec_eff o p)) (c0 ++ snd (spec_eff o p))).
+Proof.
+  intros o off k w n ec sk vi sc p c0 (Hs & Ht & Hm) Hd.
+  unfold visit_op. rewrite visit_fn_op. cbn [ps stk]. rewrite Hd.
+  rewrite pvisit_spec by assumption. rewrite spec_res_eff.
+  destruct (spec_eff o p) as [p' c]. reflexivity.
+Qed.
+
+Lemma add_u32_ok : forall m a b, 0 <= a -> 0 <= b -> a + b < U32 -> add_u32 m a b = COk (a + b).
+Proof. intros. unfold add_u32. destruct (a + b <? U32) eqn:E; [reflexivity|lia]. Qed.
+
+(* the stack in front of an operator: its operands, preceded by the width when this is the first
+   stack-clearing operator of a charstring that has one *)
+Inductive width_pre : sop -> bool -> list Z -> bool -> Prop :=
+| wp_none : forall o w, width_pre o w [] w
+| wp_some : forall o wv, (is_move o || is_hint o) = true -> width_pre o false [wv] true.
+
+Lemma stem_count_pre : forall o w pre w' n ec sk vi sc p c0,
+  is_hint o = true -> width_pre o w pre w' ->
+  stem_count (mkI (pre ++ args_of o) w n ec sk vi sc p c0) = (2 * stems_of o, w').
+Proof.
+  intros o w pre w' n ec sk vi sc p c0 Hh Hw. unfold stem_count. cbn [stk wparsed].
+  assert (Ha : args_of o = flat2 (hint_pairs o)) by (destruct o; try discriminate Hh; reflexivity).
+  rewrite Ha, len_app, len_flat2. unfold stems_of.
+  destruct Hw as [o w|o wv Hk].
+  - change (len []) with 0. replace (Z.odd (0 + 2 * len (hint_pairs o))) with false.
+    + cbn [andb]. f_equal.
+    + symmetry. rewrite Z.add_0_l, Z.odd_mul. reflexivity.
+  - change (len [wv]) with 1.
+    replace (Z.odd (1 + 2 * len (hint_pairs o))) with true
+      by (symmetry; rewrite Z.odd_add, Z.odd_mul; reflexivity).
+    cbn [andb negb]. f_equal. lia.
+Qed.
+
+Lemma step_move_spec : forall o nargs b k rest w pre w' n ec sk vi sc p c0,
+  is_move o = true -> op_byte o = b -> len (args_of o) = nargs - 1 ->
+  op_ok o p -> width_pre o w pre w' ->
+  step_move k nargs b rest (mkI (pre ++ args_of o) w n ec sk vi sc p c0) =
+  k rest (mkI [] w' n ec sk vi sc (fst (spec_eff o p)) (c0 ++ snd (spec_eff o p))).
+Proof.
+  intros o nargs b k rest w pre w' n ec sk vi sc p c0 Hmv Hb Hlen Hok Hw.
+  unfold step_move, move_offset. cbn [stk wparsed]. rewrite len_app, Hlen.
+  destruct Hw as [o w|o wv Hk].
+  - change (len []) with 0. destruct (0 + (nargs - 1) =? nargs) eqn:E; [lia|]. cbn [andb].
+    unfold set_wparsed. cbn [stk wparsed stems endchar_seen seac_seen vsidx scal ps out app].
+    subst b. rewrite visit_op_spec by (assumption || reflexivity). reflexivity.
+  - change (len [wv]) with 1. destruct (1 + (nargs - 1) =? nargs) eqn:E; [|lia]. cbn [andb negb].
+    unfold set_wparsed. cbn [stk wparsed stems endchar_seen seac_seen vsidx scal ps out].
+    subst b. rewrite visit_op_spec by (assumption || reflexivity). reflexivity.
+Qed.
+
+Lemma step_simple_spec : forall o b k rest w n ec sk vi sc p c0,
+  op_byte o = b -> op_ok o p ->
+  step_simple k b rest (mkI (args_of o) w n ec sk vi sc p c0) =
+  k rest (mkI [] w n ec sk vi sc (fst (spec_eff o p)) (c0 ++ snd (spec_eff o p))).
+Proof.
+  intros o b k rest w n ec sk vi sc p c0 Hb Hok. unfold step_simple. subst b.
+  rewrite visit_op_spec by (assumption || reflexivity). reflexivity.
+Qed.
+
+Lemma step_flex_spec : forall o b k rest w n ec sk vi sc p c0,
+  op_byte o = b -> is_flex_op b = true -> op_ok o p ->
+  step_escape k (b :: rest) (mkI (args_of o) w n ec sk vi sc p c0) =
+  k rest (mkI [] w n ec sk vi sc (fst (spec_eff o p)) (c0 ++ snd (spec_eff o p))).
+Proof.
+  intros o b k rest w n ec sk vi sc p c0 Hb Hf Hok. unfold step_escape. rewrite Hf. subst b.
+  rewrite visit_op_spec by (assumption || reflexivity). reflexivity.
+Qed.
+
+Lemma stems_of_nonneg : forall o, 0 <= stems_of o.
+Proof. intros. unfold stems_of. apply len_nonneg. Qed.
+
+Lemma visit_op_hint : forall o off k w n ec sk vi sc p c0,
+  is_hint o = true ->
+  visit_op (op_byte o) off (mkI k w n ec sk vi sc p c0) =
+  COk (mkI k w n ec sk vi sc (fst (spec_eff o p)) (c0 ++ snd (spec_eff o p))).
+Proof.
+  intros o off k w n ec sk vi sc [x y hm fm] c0 Hh.
+  unfold visit_op. rewrite visit_fn_op.
+  destruct o; try discriminate Hh; cbn [op_fn pvisit cbind ps]; unfold spec_eff, set_ps;
+    cbn [expand run_prims is_move px py first_move has_move fst snd stk wparsed stems endchar_seen
+         seac_seen vsidx scal ps out];
+    rewrite orb_false_r, negb_involutive; reflexivity.
+Qed.
+
+Lemma step_stem_spec : forall o b k e rest w pre w' n ec sk vi sc p c0,
+  is_hint o = true -> op_byte o = b -> op_ok o p -> width_pre o w pre w' ->
+  0 <= n -> n + stems_of o + 7 < U32 ->
+  step_stem k e b rest (mkI (pre ++ args_of o) w n ec sk vi sc p c0) =
+  k rest (mkI [] w' (n + stems_of o) ec sk vi sc (fst (spec_eff o p)) (c0 ++ snd (spec_eff o p))).
+Proof.
+  intros o b k e rest w pre w' n ec sk vi sc p c0 Hh Hb Hok Hw Hn Hb32.
+  unfold step_stem. rewrite (stem_count_pre o w pre w') by assumption.
+  cbn [stems]. replace (2 * stems_of o / 2) with (stems_of o) by lia.
+  pose proof (stems_of_nonneg o).
+  rewrite add_u32_ok by lia. cbn [cbind].
+  unfold set_wparsed, set_stems. cbn [stk wparsed stems endchar_seen seac_seen vsidx scal ps out].
+  subst b. rewrite visit_op_hint by assumption. reflexivity.
+Qed.
+
+Lemma step_mask_spec : forall o b m k e rest w pre w' n ec sk vi sc p c0,
+  is_hint o = true -> op_byte o = b -> mask_of o = Some m -> op_ok o p -> width_pre o w pre w' ->
+  0 <= n -> n + stems_of o + 7 < U32 -> len m = (n + stems_of o + 7) / 8 ->
+  step_mask k e b (m ++ rest) (mkI (pre ++ args_of o) w n ec sk vi sc p c0) =
+  k rest (mkI [] w' (n + stems_of o) ec sk vi sc (fst (spec_eff o p)) (c0 ++ snd (spec_eff o p))).
+Proof.
+  intros o b m k e rest w pre w' n ec sk vi sc p c0 Hh Hb Hmask Hok Hw Hn Hb32 Hlen.
+  unfold step_mask. rewrite (stem_count_pre o w pre w') by assumption.
+  subst b. rewrite visit_op_hint by assumption. cbn [cbind].
+  unfold set_wparsed, set_stk, set_stems.
+  cbn [stk wparsed stems endchar_seen seac_seen vsidx scal ps out].
+  replace (2 * stems_of o / 2) with (stems_of o) by lia.
+  pose proof (stems_of_nonneg o).
+  rewrite add_u32_ok by lia. cbn [cbind]. rewrite add_u32_ok by lia. cbn [cbind].
+  rewrite <- Hlen. rewrite len_app. pose proof (len_nonneg rest).
+  destruct (len m + len rest <? len m) eqn:E; [lia|]. rewrite drop_app_len. reflexivity.
+Qed.
+
+Ltac op_start K :=
+  cbn [opbytes app]; rewrite run_cons; unfold step;
+  match goal with |- context [classify ?b] => change (classify b) with K end.
+
+Ltac no_stems o n :=
+  replace (n + stems_of o) with n by (unfold stems_of; cbn [hint_pairs]; change (len (@nil (Z * Z))) with 0; lia).
+
+Lemma width_pre_seg : forall o w pre w', width_pre o w pre w' ->
+  (is_move o || is_hint o) = false -> pre = [] /\ w' = w.
+Proof. intros o w pre w' Hw Hk. destruct Hw as [o w|o wv Hk']; [auto|congruence]. Qed.
+
+(* one operator of a well-formed program: operands on the stack (after the width, if this is the
+   operator that takes it), operator bytes next in the charstring *)
+Lemma run_op : forall o df e d rest w pre w' n ec sk vi sc p c0,
+  op_ok o p -> width_pre o w pre w' -> 0 <= n -> n + stems_of o + 7 < U32 ->
+  (match mask_of o with Some m => len m = (n + stems_of o + 7) / 8 | None => True end) ->
+  run (S df) e d (opbytes o ++ rest) (mkI (pre ++ args_of o) w n ec sk vi sc p c0) =
+  run (S df) e d rest
+      (mkI [] w' (n + stems_of o) ec sk vi sc (fst (spec_eff o p)) (c0 ++ snd (spec_eff o p))).
+Proof.
+  intros o df e d rest w pre w' n ec sk vi sc p c0 Hok Hw Hn Hb32 Hmask.
+  destruct o.
+  - op_start KRMove. no_stems (SRMove dx dy) n.
+    apply (step_move_spec (SRMove dx dy) 3 21); (reflexivity || assumption).
+  - op_start KHMove. no_stems (SHMove dx) n.
+    apply (step_move_spec (SHMove dx) 2 22); (reflexivity || assumption).
+  - op_start KVMove. no_stems (SVMove dy) n.
+    apply (step_move_spec (SVMove dy) 2 4); (reflexivity || assumption).
+  - destruct (width_pre_seg _ _ _ _ Hw eq_refl) as [-> ->]. op_start KSimple.
+    no_stems (SRLine l) n. apply step_simple_spec; (reflexivity || assumption).
+  - destruct (width_pre_seg _ _ _ _ Hw eq_refl) as [-> ->]. op_start KSimple.
+    no_stems (SHLine l) n. apply step_simple_spec; (reflexivity || assumption).
+  - destruct (width_pre_seg _ _ _ _ Hw eq_refl) as [-> ->]. op_start KSimple.
+    no_stems (SVLine l) n. apply step_simple_spec; (reflexivity || assumption).
+  - destruct (width_pre_seg _ _ _ _ Hw eq_refl) as [-> ->]. op_start KSimple.
+    no_stems (SRRCurve l) n. apply step_simple_spec; (reflexivity || assumption).
+  - destruct (width_pre_seg _ _ _ _ Hw eq_refl) as [-> ->]. op_start KSimple.
+    no_stems (SHHCurve dy1 l) n. apply step_simple_spec; (reflexivity || assumption).
+  - destruct (width_pre_seg _ _ _ _ Hw eq_refl) as [-> ->]. op_start KSimple.
+    no_stems (SVVCurve dx1 l) n. apply step_simple_spec; (reflexivity || assumption).
+  - destruct (width_pre_seg _ _ _ _ Hw eq_refl) as [-> ->]. op_start KSimple.
+    no_stems (SHVCurve l last) n. apply step_simple_spec; (reflexivity || assumption).
+  - destruct (width_pre_seg _ _ _ _ Hw eq_refl) as [-> ->]. op_start KSimple.
+    no_stems (SVHCurve l last) n. apply step_simple_spec; (reflexivity || assumption).
+  - destruct (width_pre_seg _ _ _ _ Hw eq_refl) as [-> ->]. op_start KSimple.
+    no_stems (SRCurveLine l dx dy) n. apply step_simple_spec; (reflexivity || assumption).
+  - destruct (width_pre_seg _ _ _ _ Hw eq_refl) as [-> ->]. op_start KSimple.
+    no_stems (SRLineCurve l c) n. apply step_simple_spec; (reflexivity || assumption).
+  - destruct (width_pre_seg _ _ _ _ Hw eq_refl) as [-> ->]. op_start KEscape.
+    no_stems (SFlex c1 c2 fd) n. apply step_flex_spec; (reflexivity || assumption).
+  - destruct (width_pre_seg _ _ _ _ Hw eq_refl) as [-> ->]. op_start KEscape.
+    no_stems (SHFlex dx1 dx2 dy2 dx3 dx4 dx5 dx6) n. apply step_flex_spec; (reflexivity || assumption).
+  - destruct (width_pre_seg _ _ _ _ Hw eq_refl) as [-> ->]. op_start KEscape.
+    no_stems (SHFlex1 dx1 dy1 dx2 dy2 dx3 dx4 dx5 dy5 dx6) n.
+    apply step_flex_spec; (reflexivity || assumption).
+  - destruct (width_pre_seg _ _ _ _ Hw eq_refl) as [-> ->]. op_start KEscape.
+    no_stems (SFlex1 dx1 dy1 dx2 dy2 dx3 dy3 dx4 dy4 dx5 dy5 d6) n.
+    apply step_flex_spec; (reflexivity || assumption).
+  - op_start KStem. apply step_stem_spec; (reflexivity || assumption).
+  - op_start KStem. apply step_stem_spec; (reflexivity || assumption).
+  - op_start KStem. apply step_stem_spec; (reflexivity || assumption).
+  - op_start KStem. apply step_stem_spec; (reflexivity || assumption).
+  - cbn [opbytes]. rewrite <- app_comm_cons. rewrite run_cons. unfold step.
+    change (classify 19) with KMask.
+    apply (step_mask_spec (SHintMask l mask) 19 mask); (reflexivity || assumption).
+  - cbn [opbytes]. rewrite <- app_comm_cons. rewrite run_cons. unfold step.
+    change (classify 20) with KMask.
+    apply (step_mask_spec (SCntrMask l mask) 20 mask); (reflexivity || assumption).
+Qed.
+
+(* ================================================================== *)
+(* 5. Whole programs (no subroutine calls)                            *)
+(* ================================================================== *)
+
+Fixpoint ops_eff (ops : list sop) (p : pst) (n : Z) : pst * Z * list cmd :=
+  match ops with
+  | [] => (p, n, [])
+  | o :: r =>
+    let '(pf, nf, cf) := ops_eff r (fst (spec_eff o p)) (n + stems_of o) in
+    (pf, nf, snd (spec_eff o p) ++ cf)
+  end.
+
+Lemma spec_eff_has_move : forall o p, has_move (fst (spec_eff o p)) = has_move p || is_move o.
+Proof.
+  intros. unfold spec_eff.
+  destruct (run_prims (px p) (py p) (negb (first_move p)) (expand o)) as [[[x y] o'] c]. reflexivity.
+Qed.
+
+Lemma ops_wf_op_ok : forall o r p n maxargs,
+  ops_wf maxargs (has_move p) n (o :: r) -> maxargs <= TEMP_OPERANDS -> op_ok o p.
+Proof.
+  intros o r p n maxargs (Hs & Hl & Hm & _) Ht. unfold op_ok. repeat split; [assumption|lia|assumption].
+Qed.
+
+Lemma run_ops : forall ops body, enc_ops ops body ->
+  forall df e d rest w n ec sk vi sc p c0,
+  ops_wf (max_stack e) (has_move p) n ops -> 0 <= n -> max_stack e <= TEMP_OPERANDS ->
+  run (S df) e d (body ++ rest) (mkI [] w n ec sk vi sc p c0) =
+  run (S df) e d rest
+      (mkI [] w (snd (fst (ops_eff ops p n))) ec sk vi sc (fst (fst (ops_eff ops p n)))
+           (c0 ++ snd (ops_eff ops p n))).
+Proof.
+  induction 1 as [|o r bss tail Hargs Hr IH]; intros df e d rest w n ec sk vi sc p c0 Hwf Hn Ht.
+  - cbn [app ops_eff fst snd]. rewrite app_nil_r. reflexivity.
+  - pose proof (ops_wf_op_ok _ _ _ _ _ Hwf Ht) as Hok.
+    destruct Hwf as (Hs & Hl & Hm & Hmask & Hb32 & Hwf').
+    rewrite <- !app_assoc. rewrite (run_args bss (args_of o) Hargs).
+    2:{ cbn [stk]. change (len []) with 0. lia. }
+    unfold set_stk. cbn [stk wparsed stems endchar_seen seac_seen vsidx scal ps out app].
+    change (args_of o) with ([] ++ args_of o) at 1.
+    rewrite (run_op o df e d (tail ++ rest) w [] w) by
+      (try assumption; try apply wp_none; change U32 with 4294967296; lia).
+    rewrite IH.
+    + cbn [ops_eff]. destruct (ops_eff r (fst (spec_eff o p)) (n + stems_of o)) as [[pf nf] cf].
+      cbn [fst snd]. rewrite <- app_assoc. reflexivity.
+    + rewrite spec_eff_has_move. exact Hwf'.
+    + pose proof (stems_of_nonneg o). lia.
+    + exact Ht.
+Qed.
+
+(* the same with the width operand under the operands of the first operator *)
+Lemma run_ops_width : forall o r bss tail wv,
+  Forall2 encodes bss (args_of o) -> enc_ops r tail ->
+  forall df e d rest ec sk vi sc p c0,
+  has_move p = false ->
+  ops_wf (max_stack e) (has_move p) 0 (o :: r) -> len (args_of o) + 1 <= max_stack e ->
+  max_stack e <= TEMP_OPERANDS ->
+  run (S df) e d ((concat bss ++ opbytes o ++ tail) ++ rest) (mkI [wv] false 0 ec sk vi sc p c0) =
+  run (S df) e d rest
+      (mkI [] true (snd (fst (ops_eff (o :: r) p 0))) ec sk vi sc (fst (fst (ops_eff (o :: r) p 0)))
+           (c0 ++ snd (ops_eff (o :: r) p 0))).
+Proof.
+  intros o r bss tail wv Hargs Hr df e d rest ec sk vi sc p c0 Hp Hwf Hroom Ht.
+  pose proof (ops_wf_op_ok _ _ _ _ _ Hwf Ht) as Hok.
+  destruct Hwf as (Hs & Hl & Hm & Hmask & Hb32 & Hwf').
+  assert (Hk : (is_move o || is_hint o) = true).
+  { destruct (is_move o) eqn:E1; [reflexivity|]. destruct (is_hint o) eqn:E2; [reflexivity|].
+    (* a segment needs a moveto before it, and p is the initial state *)
+    specialize (Hm eq_refl eq_refl). congruence. }
+  rewrite <- !app_assoc. rewrite (run_args bss (args_of o) Hargs).
+  2:{ cbn [stk]. change (len [wv]) with 1. lia. }
+  unfold set_stk. cbn [stk wparsed stems endchar_seen seac_seen vsidx scal ps out].
+  rewrite (run_op o df e d (tail ++ rest) false [wv] true) by
+    (try assumption; try (apply wp_some; exact Hk); change U32 with 4294967296; lia).
+  rewrite (run_ops r tail Hr).
+  - cbn [ops_eff]. destruct (ops_eff r (fst (spec_eff o p)) (0 + stems_of o)) as [[pf nf] cf].
+    cbn [fst snd]. rewrite <- app_assoc. reflexivity.
+  - rewrite spec_eff_has_move. exact Hwf'.
+  - pose proof (stems_of_nonneg o). lia.
+  - exact Ht.
+Qed.
+
+Lemma ops_eff_prims : forall ops p n,
+  let '(pf, nf, cf) := ops_eff ops p n in
+  let '(x, y, o, c) := run_prims (px p) (py p) (negb (first_move p)) (flat_map expand ops) in
+  px pf = x /\ py pf = y /\ first_move pf = negb o /\ cf = c.
+Proof.
+  induction ops as [|o r IH]; intros p n.
+  - cbn [ops_eff flat_map run_prims]. rewrite negb_involutive. auto.
+  - cbn [ops_eff flat_map]. rewrite run_prims_app.
+    specialize (IH (fst (spec_eff o p)) (n + stems_of o)).
+    unfold spec_eff in *.
+    destruct (run_prims (px p) (py p) (negb (first_move p)) (expand o)) as [[[x1 y1] o1] c1].
+    cbn [fst snd px py first_move] in *. rewrite negb_involutive in IH.
+    destruct (ops_eff r _ (n + stems_of o)) as [[pf nf] cf].
+    destruct (run_prims x1 y1 o1 (flat_map expand r)) as [[[x2 y2] o2] c2].
+    destruct IH as (Hx & Hy & Hf & Hc). subst. auto.
+Qed.
+
+Lemma ops_eff_path : forall ops,
+  snd (ops_eff ops pst0 0) ++
+    (if first_move (fst (fst (ops_eff ops pst0 0))) then [] else [Close]) = prog_path ops.
+Proof.
+  intros ops. pose proof (ops_eff_prims ops pst0 0) as H.
+  unfold prog_path, path_of. cbn [px py first_move pst0 negb] in H.
+  destruct (ops_eff ops pst0 0) as [[pf nf] cf].
+  destruct (run_prims 0 0 false (flat_map expand ops)) as [[[x y] o] c].
+  destruct H as (_ & _ & Hf & ->). cbn [fst snd]. rewrite Hf. destruct o; reflexivity.
+Qed.
+
+(* endchar with nothing left on the stack, at the end of the charstring *)
+Lemma run_endchar : forall df e d w n sk vi sc p c0,
+  e_kind e = KCFF ->
+  run (S df) e d [14] (mkI [] w n false sk vi sc p c0) =
+  COk (mkI [] w n true sk vi sc (fst (parse_endchar p)) (c0 ++ snd (parse_endchar p))).
+Proof.
+  intros df e d w n sk vi sc p c0 Hk. rewrite run_cons. unfold step.
+  change (classify 14) with KEndchar. unfold step_endchar. rewrite Hk. cbn [stk wparsed].
+  change (len []) with 0. cbn [Z.eqb orb andb cbind].
+  rewrite andb_false_r. cbn [cbind].
+  unfold visit_op. change (visit_fn 14) with (Some F_endchar). cbn [pvisit cbind].
+  unfold set_endchar, set_ps. cbn [stk wparsed stems endchar_seen seac_seen vsidx scal ps out].
+  destruct (parse_endchar p) as [p' c]. reflexivity.
+Qed.
+
+(* endchar preceded only by the width *)
+Lemma run_endchar_width : forall df e d wv n sk vi sc p c0,
+  e_kind e = KCFF ->
+  run (S df) e d [14] (mkI [wv] false n false sk vi sc p c0) =
+  COk (mkI [] true n true sk vi sc (fst (parse_endchar p)) (c0 ++ snd (parse_endchar p))).
+Proof.
+  intros df e d wv n sk vi sc p c0 Hk. rewrite run_cons. unfold step.
+  change (classify 14) with KEndchar. unfold step_endchar. rewrite Hk. cbn [stk wparsed].
+  change (len [wv]) with 1. cbn [Z.eqb Pos.eqb orb andb negb].
+  unfold pop, visit_op. change (visit_fn 14) with (Some F_endchar).
+  unfold set_endchar, set_ps, set_wparsed, set_stk.
+  cbn [stk wparsed stems endchar_seen seac_seen vsidx scal ps out removelast cbind pvisit].
+  destruct (parse_endchar p) as [p' c]. reflexivity.
+Qed.
+
+Lemma run_app_end : forall df e d a s,
+  run (S df) e d a s = run (S df) e d (a ++ []) s.
+Proof. intros. rewrite app_nil_r. reflexivity. Qed.
+
+(* --- CFF: optional width, operators, endchar --- *)
+Theorem interp_spec_cff : forall e w ops wb body,
+  e_kind e = KCFF ->
+  nth_opt (e_glyphs e) (e_gid e) = Some (wb ++ body ++ [14]) ->
+  enc_width w wb -> enc_ops ops body -> prog_wf CFF_MAX_OPERANDS w ops ->
+  exists s, interp_glyph e = COk s /\ out s = prog_path ops.
+Proof.
+  intros e w ops wb body Hk Hg Hw Hops (Hwf & Hroom).
+  assert (Hmax : max_stack e = CFF_MAX_OPERANDS) by (unfold max_stack; rewrite Hk; reflexivity).
+  assert (Ht : max_stack e <= TEMP_OPERANDS) by (rewrite Hmax; vm_compute; congruence).
+  unfold interp_glyph. rewrite Hk, Hg. unfold DEPTH_FUEL.
+  destruct Hw as [|wv wbs Hwenc].
+  - (* no width *)
+    cbn [app]. unfold ist0.
+    rewrite (run_ops ops body Hops) by (rewrite ?Hmax; cbn [pst0 has_move]; (assumption || lia)).
+    rewrite run_endchar by exact Hk. cbn [cbind].
+    eexists; split; [reflexivity|]. cbn [out app].
+    rewrite <- ops_eff_path. unfold parse_endchar.
+    destruct (first_move (fst (fst (ops_eff ops pst0 0)))); reflexivity.
+  - (* width *)
+    rewrite (run_num wbs wv Hwenc). unfold push, ist0. cbn [stk].
+    change (len []) with 0. rewrite Hmax. change (0 =? CFF_MAX_OPERANDS) with false.
+    unfold set_stk. cbn [cbind stk wparsed stems endchar_seen seac_seen vsidx scal ps out app].
+    destruct Hops as [|o r bss tail Hargs Hr].
+    + cbn [app]. rewrite run_endchar_width by exact Hk. cbn [cbind].
+      eexists; split; [reflexivity|]. reflexivity.
+    + rewrite (run_ops_width o r bss tail wv Hargs Hr) by
+        (rewrite ?Hmax; cbn [pst0 has_move]; (assumption || reflexivity || lia)).
+      rewrite run_endchar by exact Hk. cbn [cbind].
+      eexists; split; [reflexivity|]. cbn [out app].
+      rewrite <- ops_eff_path. unfold parse_endchar.
+      destruct (first_move (fst (fst (ops_eff (o :: r) pst0 0)))); reflexivity.
+Qed.
